@@ -385,7 +385,7 @@ func checkMixed(c Case, header http.Header, body []byte) *vfrun.Failure {
 
 func check(c Case) *vfrun.Failure {
 	srv := serverFor(c)
-	before := sched.GqlgenIDs("vh/c12.")
+	before := sched.GqlgenIDs("vh/vfrun.", "pgregory.net/rapid.")
 	header, body, err := request(srv, c)
 	defer func() {
 		srv.CloseClientConnections()
@@ -394,7 +394,7 @@ func check(c Case) *vfrun.Failure {
 	if c.CutAt >= 0 {
 		// the client went away mid-stream: the handler must finish and leave nothing behind
 		srv.CloseClientConnections()
-		st, running := sched.SurvivorsIgnoring(5*time.Second, before, "vh/c12.", "net/http.(*Server).Serve", "net/http/httptest.(*Server).goServe")
+		st, running := sched.SurvivorsIgnoring(5*time.Second, before, "vh/vfrun.", "pgregory.net/rapid.", "net/http.(*Server).Serve", "net/http/httptest.(*Server).goServe")
 		if running {
 			return vfrun.Failf("harness.inconclusive", "goroutines still running 5s after the client disconnected")
 		}
